@@ -59,4 +59,9 @@ def KeyUse.seal (u : KeyUse) (c : CipherId) (k : Key) (pt : Bytes) : KeyUse × P
   let p := encrypt c k u.next pt
   ({ next := u.next + 1, made := u.made ++ [p] }, p)
 
+/-- `Vault::verify(key)`: derive the key and try to open the encrypted vault meta data; the
+answer is whether that worked (nothing is unlocked) -/
+def verify (c : CipherId) (alg : Nat) (salt : Bytes) (seed : Option Bytes) (sealedMeta : Pack) (password : Bytes) : Bool :=
+  (decrypt c (derive alg password salt seed) sealedMeta).isSome
+
 end Sos.Crypto
